@@ -30,7 +30,7 @@ def balanced : Nat → Str → Bool
   | d, c :: rest => if c == '{' then balanced (d + 1) rest else if c == '}' then (d > 1 && balanced (d - 1) rest) else (d > 0 && balanced d rest)
 
 def toySem : Sem where
-  treeIdent gp st al g t := s2l ("T" ++ ((Str.hex (gp ++ ['|'] ++ st ++ ['|'] ++ al)).replace "-" "e") ++ s!"g{g}m{t}")
+  treeIdent gp st al g t ch := s2l ("T" ++ ((Str.hex (gp ++ ['|'] ++ st ++ ['|'] ++ al)).replace "-" "e") ++ s!"g{g}m{t}") ++ (if ch.isEmpty then [] else 'c' :: ch)
   parserIdent gp st al g := s2l ("P" ++ ((Str.hex (gp ++ ['|'] ++ st ++ ['|'] ++ al)).replace "-" "e") ++ s!"m{g}")
   hash s := s2l ("H" ++ (Str.hex s).replace "-" "e")
   identL hs := 'L' :: Str.join ['x'] hs
